@@ -80,7 +80,7 @@ def element_pool(cell: str, gdim: int, maxdeg: int = 3, rich: bool = True):
         add("mixed", ["mixed", [["el", "P", 1, {"shape": [gdim]}], ["el", "P", 1, {}]]])
         add("mixed", ["mixed", [["el", "P", 1, {}], ["el", "P", 1, {"shape": [gdim]}]]])
         add("mixed", ["mixed", [["el", "P", 1, {"shape": [gdim]}], ["el", "P", 1, {"shape": [gdim], "dc": True}], ["el", "P", 0, {"dc": True}]]])
-        add("mixed", ["mixed", [["el", "P", 1, {"shape": [gdim, gdim], "sym": True}], ["el", "P", 1, {"shape": [gdim]}], ["el", "P", 1, {}]]])
+        add("mixed", ["mixed", [["el", "P", 1, {"shape": [gdim, gdim]}], ["el", "P", 1, {"shape": [gdim]}], ["el", "P", 1, {}]]])
         if maxdeg >= 2:
             add("mixed", ["mixed", [["el", "P", 2, {"shape": [gdim]}], ["el", "P", 2, {}]]])
         if cell in ("triangle", "tetrahedron"):
@@ -461,6 +461,12 @@ def gen_tensor(g: G, m, shape, depth):
 def gen_integrand(g: G, m, depth):
     """Integrand of one integral; for arity >= 1 sometimes placed inside a conditional (argument-dependent branches)."""
     t = _gen_integrand(g, m, depth)
+    if len(g.spec["args"]) >= 1 and g.chance(g.profile.get("p_sum", 0.3)):
+        # a sum of independently generated terms, as in a = inner(grad u, grad v) - p div v + q div u: other sub-functions of a
+        # mixed argument, other operator chains and other coefficients in one kernel
+        for _ in range(g.int(1, 2)):
+            t = [g.pick(["add", "sub"]), t, _gen_integrand(g, m, max(depth - 1, 0))]
+        g.features.add("sum-of-terms")
     if len(g.spec["args"]) >= 1 and g.chance(g.profile.get("p_argcond", 0.08)):
         a, b = gen_scalar(g, m, 1), gen_scalar(g, m, 0)
         if g.complex:
@@ -669,6 +675,9 @@ def form_specs(draw, profile=None):
         if argument:
             # arguments in real/quadrature spaces are legal but make most operators vanish
             cand = [(t, E) for t, E in pool if t != "real"] or pool
+            mixed = [(t, E) for t, E in cand if t == "mixed"]
+            if mixed and prob(draw, pr.get("p_mixed_arg", 0.25)):
+                cand = mixed  # mixed spaces (Stokes, mixed Poisson, three-field) are everyday inputs, not 1 in 50
         tag, E = draw(st.sampled_from(cand))
         if E in elements:
             return elements.index(E)
@@ -797,7 +806,7 @@ def spec_classes(spec):
     out.append(f"nintegrals:{len(spec['integrals'])}")
     for f in spec.get("_features", []):
         if f.startswith(("fun:", "op:", "geo:", "L:", "restr:", "transform:", "argument-inside-conditional:", "template:")) or f in (
-                "split", "tensor-coefficient", "multiterm", "factor-on-test-side", "complex-literal-on-test-side", "quadrature-element-coefficient",
+                "split", "tensor-coefficient", "multiterm", "sum-of-terms", "factor-on-test-side", "complex-literal-on-test-side", "quadrature-element-coefficient",
                 "tp-variant-sibling"):
             out.append(f)
     return out
